@@ -40,7 +40,8 @@ SATS = {
     # witness items are bytes, whatever they look like as text; a witness script is run as it is, whatever it looks like
     # witness programs other than v0/20, v0/32 and native v1/32: future versions succeed unless discouraged, v0 of another length fails
     'witness-program': ['v2-32-bytes', 'v16-2-bytes', 'v1-33-bytes', 'v1-2-bytes', 'v0-25-bytes', 'v0-2-bytes', 'p2sh-wrapped-v1-32-bytes', 'p2sh-wrapped-v5-20-bytes', 'v2-40-bytes'],
-    'p2wsh-hashlock': ['valid', 'wrong-preimage', 'digits-only-preimage', 'two-digit-items', 'p2sh-shaped-witness-script', 'p2sh-shaped-witness-script-inner-fails', 'opcode-name-preimage', 'leftover-stack'],
+    'p2wsh-hashlock': ['valid', 'wrong-preimage', 'digits-only-preimage', 'two-digit-items', 'p2sh-shaped-witness-script', 'p2sh-shaped-witness-script-inner-fails', 'opcode-name-preimage', 'leftover-stack',
+                       'script-521-bytes', 'script-9999-bytes', 'script-10000-bytes', 'script-10001-bytes'],
 }
 FLAGMODS = {
     'p2pk': ['NULLFAIL', 'CLEANSTACK', 'SIGPUSHONLY+', 'LOW_S', 'STRICTENC'],
@@ -132,7 +133,22 @@ def build(rng, otype, sat):
             pre = rng.choice([b'OP_1', b'add', b'OP_DUP', b'0x51', b'[OP_1]', b'hash160(00)', b'-1', b'1e3', b' 12'])
         else:
             pre = rng.choice([digits_only_bytes(rng), rsign.rnd_bytes(rng, rng.choice([1, 2, 16, 32]))])
-        if sat.startswith('p2sh-shaped'):
+        if sat.startswith('script-'):
+            # the witness script itself may be up to 10,000 bytes long (the 520-byte rule is for stack items, the script is not one)
+            target = int(sat.split('-')[1])
+            body = bytes([OP_SHA256]) + push_only(sha256(pre)) + bytes([OP_EQUAL])
+            pad = b''
+            while target - len(body) - len(pad) > 524:
+                pad += bytes([OP_PUSHDATA2, 520 & 255, 520 >> 8]) + b'p' * 520 + bytes([OP_DROP])
+            rest = target - len(body) - len(pad)
+            fit = [L for L in range(2, 521) if len(push_data(b'q' * L)) + 1 == rest]      # (minimal push forms only)
+            if fit:
+                pad += push_data(b'q' * fit[0]) + bytes([OP_DROP])
+            else:
+                pad += bytes([OP_NOP]) * rest
+            wscript = pad + body
+            assert len(wscript) == target
+        elif sat.startswith('p2sh-shaped'):
             # a witness script that LOOKS like a pay-to-script-hash output: consensus just runs it (HASH160 <h> EQUAL)
             pre = bytes([OP_RETURN]) if sat.endswith('inner-fails') else rng.choice([bytes([OP_1]), bytes([OP_1, OP_1, OP_ADD]), bytes([OP_0]), bytes([OP_NOP, OP_NOP])])
             wscript = bytes([OP_HASH160]) + push_only(hash160(pre)) + bytes([OP_EQUAL])
